@@ -64,13 +64,15 @@ def scenario(x, p):
         exists.add(filename)
     expected = {}
     will_fail = False
+    gone = set()
     for s in SECTIONS:
         c = choice[s]
         setattr(args, s, None)
         setattr(args, 'empty_' + s, False)
         if c in ('p8', 'png', 'luafile'):
-            fn = '/w/src_%s.%s' % (s, {'p8': 'p8', 'png': 'p8.png',
-                                       'luafile': 'lua'}[c])
+            # the same two source carts serve every section that names them
+            fn = {'p8': '/w/srcA.p8', 'png': '/w/srcB.p8.png',
+                  'luafile': '/w/src_%s.lua' % s}[c]
             setattr(args, s, fn)
             exists.add(fn)
             expected[s] = ('src:' + fn, s)
@@ -86,13 +88,14 @@ def scenario(x, p):
                     will_fail = True
             elif fault == 'missing':
                 if c in ('p8', 'png', 'luafile'):
-                    exists.discard(getattr(args, s))
+                    gone.add(getattr(args, s))
                     will_fail = True
             elif fault == 'badext':
                 fn = '/w/src_%s.txt' % s
                 setattr(args, s, fn)
                 exists.add(fn)
                 will_fail = True
+    exists -= gone
     written = []
     loaded = []
     empties = []
